@@ -370,5 +370,8 @@ pub fn run(ctx: &Ctx) {
         Opts::default(),
         |c: &super::c12::VerifierCase| super::c12::check_verifier(ctx, c),
     );
+    // genuine signatures over messages chosen for their value (own keys as messages, structured
+    // digests, extreme checksums): accepted by the library as by the reference verifier
+    super::c01::accepted_value_classes(ctx);
     let _ = (Mutation::None, Target::Sig);
 }
